@@ -32,6 +32,7 @@ const (
 type wobj struct {
 	kind objKind
 	idx  int // parameter index
+	deep bool // parameter objects: memory reached through a pointer loaded out of the parameter's own memory
 	name string
 	g    *ssa.Global
 	site ssa.Value
@@ -40,6 +41,9 @@ type wobj struct {
 func (o *wobj) String() string {
 	switch o.kind {
 	case oParam:
+		if o.deep {
+			return "param:" + o.name + "*"
+		}
 		return "param:" + o.name
 	case oGlobal:
 		return "global:" + o.name
@@ -69,6 +73,8 @@ type wcause struct {
 }
 
 type wsummary struct {
+	WS      map[int]bool            // written shallowly: the memory the parameter itself denotes (pointee / backing array)
+	WD      map[int]bool            // written deeply: memory reached through pointers stored in it
 	W       map[int]bool            // parameter indexes written
 	G       map[*ssa.Global]bool    // globals written (transitively)
 	Ret     map[int]bool            // result may alias parameter
@@ -130,6 +136,7 @@ type wfam struct {
 	pts   map[ssa.Value]objset
 	cont  map[*wobj]objset
 	pobj  []*wobj
+	dobj  []*wobj
 	sites map[ssa.Value]*wobj
 	sum   *wsummary
 	seenC map[string]bool
@@ -174,8 +181,11 @@ func (f *wfam) contOf(o *wobj) objset {
 		return s
 	}
 	s := objset{}
-	if o.kind != oLocal {
-		s[o] = true // collapsed: pointers loaded out of parameter/global memory still denote it
+	switch {
+	case o.kind == oParam && !o.deep:
+		s[f.dobj[o.idx]] = true // pointers loaded out of the parameter's own memory denote its deep part
+	case o.kind != oLocal:
+		s[o] = true // collapsed: pointers loaded out of deep parameter / global memory still denote it
 	}
 	f.cont[o] = s
 	return s
@@ -227,11 +237,26 @@ func (f *wfam) writeEvent(objs objset, at ssa.Instruction, how string, callee *s
 		var key string
 		switch o.kind {
 		case oParam:
+			m := f.sum.WS
+			if o.deep {
+				m = f.sum.WD
+			}
+			if !m[o.idx] {
+				m[o.idx] = true
+				f.ch = true
+			}
 			if !f.sum.W[o.idx] {
 				f.sum.W[o.idx] = true
 				f.ch = true
 			}
-			key = o.String()
+			key = "param:" + o.name
+			if !o.deep {
+				ck := fmt.Sprintf("shallow:%s|%p|%s", o.name, at, how)
+				if !f.seenC[ck] {
+					f.seenC[ck] = true
+					f.sum.Causes["shallow:"+o.name] = append(f.sum.Causes["shallow:"+o.name], wcause{at: at, how: how, callee: callee, in: at.Parent()})
+				}
+			}
 		case oGlobal:
 			if !f.sum.G[o.g] {
 				f.sum.G[o.g] = true
@@ -256,11 +281,13 @@ func (st *wfxState) analyse(top *ssa.Function) *wsummary {
 	for _, fn := range f.fns {
 		f.inFam[fn] = true
 	}
-	f.sum = &wsummary{W: map[int]bool{}, G: map[*ssa.Global]bool{}, Ret: map[int]bool{}, Esc: map[[2]int]bool{}, Causes: map[string][]wcause{}}
+	f.sum = &wsummary{WS: map[int]bool{}, WD: map[int]bool{}, W: map[int]bool{}, G: map[*ssa.Global]bool{}, Ret: map[int]bool{}, Esc: map[[2]int]bool{}, Causes: map[string][]wcause{}}
 	for i, p := range top.Params {
 		f.sum.pnames = append(f.sum.pnames, p.Name())
 		o := &wobj{kind: oParam, idx: i, name: p.Name()}
+		d := &wobj{kind: oParam, idx: i, name: p.Name(), deep: true}
 		f.pobj = append(f.pobj, o)
+		f.dobj = append(f.dobj, d)
 		if pointerful(p.Type()) {
 			f.get(p)[o] = true
 		}
@@ -532,8 +559,19 @@ func isFuncParamValue(v ssa.Value) bool {
 
 func (f *wfam) applySummary(ci ssa.CallInstruction, callee *ssa.Function, s *wsummary, args []ssa.Value, res ssa.Value) {
 	for k := range s.W {
-		if k < len(args) {
-			f.writeEvent(f.reach(f.get(args[k])), ci, fmt.Sprintf("call %s (writes through its parameter %d)", core.FnName(callee), k), callee)
+		if k >= len(args) {
+			continue
+		}
+		how := fmt.Sprintf("call %s (writes through its parameter %d)", core.FnName(callee), k)
+		if s.WS[k] {
+			f.writeEvent(f.get(args[k]), ci, how, callee)
+		}
+		if s.WD[k] {
+			deep := objset{}
+			for o := range f.get(args[k]) {
+				deep.addAll(f.reach(f.contOf(o)))
+			}
+			f.writeEvent(deep, ci, how, callee)
 		}
 	}
 	for g := range s.G {
@@ -577,7 +615,7 @@ func (st *wfxState) onDemand(fn *ssa.Function) *wsummary {
 	if s, ok := st.sums[fn]; ok {
 		return s
 	}
-	st.sums[fn] = &wsummary{W: map[int]bool{}, G: map[*ssa.Global]bool{}, Ret: map[int]bool{}, Esc: map[[2]int]bool{}, Causes: map[string][]wcause{}}
+	st.sums[fn] = &wsummary{WS: map[int]bool{}, WD: map[int]bool{}, W: map[int]bool{}, G: map[*ssa.Global]bool{}, Ret: map[int]bool{}, Esc: map[[2]int]bool{}, Causes: map[string][]wcause{}}
 	s := st.analyse(fn)
 	st.sums[fn] = s
 	return s
@@ -587,7 +625,7 @@ func sumEqual(a, b *wsummary) bool {
 	if a == nil || b == nil {
 		return false
 	}
-	if len(a.W) != len(b.W) || len(a.G) != len(b.G) || len(a.Ret) != len(b.Ret) || len(a.Esc) != len(b.Esc) || a.Fresh != b.Fresh {
+	if len(a.WS) != len(b.WS) || len(a.WD) != len(b.WD) || len(a.W) != len(b.W) || len(a.G) != len(b.G) || len(a.Ret) != len(b.Ret) || len(a.Esc) != len(b.Esc) || a.Fresh != b.Fresh {
 		return false
 	}
 	return true // monotone growth: equal sizes imply equal sets
